@@ -9,6 +9,7 @@ import (
 	"io"
 	"math/big"
 	"runtime"
+	"unsafe"
 
 	"github.com/oasisprotocol/ed25519"
 	"github.com/oasisprotocol/ed25519/extra/x25519"
@@ -517,25 +518,42 @@ func wrapKey(fn string, b []byte) interface{} {
 
 // Outcome is everything observable about one call.
 type Outcome struct {
-	Panic     string   `json:"panic,omitempty"`
-	Budget    bool     `json:"budget,omitempty"`
-	B         string   `json:"b,omitempty"`  // primary byte result (hex), "nil" for nil
-	B2        string   `json:"b2,omitempty"` // secondary byte result
-	Ok        string   `json:"ok,omitempty"` // "true"/"false" when the call returns a bool
-	Valid     string   `json:"valid,omitempty"`
-	Err       string   `json:"err,omitempty"`
-	Dev       *DevLog  `json:"dev,omitempty"`
-	Fallbacks [][2]int `json:"fallbacks,omitempty"`
-	Pts       int64    `json:"pts,omitempty"`
-	Intact    bool     `json:"intact"`
-	Fault     bool     `json:"fault,omitempty"`
-	NilRd     bool     `json:"-"`
-	Fn        string   `json:"-"`
+	Panic        string   `json:"panic,omitempty"`
+	Budget       bool     `json:"budget,omitempty"`
+	B            string   `json:"b,omitempty"`  // primary byte result (hex), "nil" for nil
+	B2           string   `json:"b2,omitempty"` // secondary byte result
+	Ok           string   `json:"ok,omitempty"` // "true"/"false" when the call returns a bool
+	Valid        string   `json:"valid,omitempty"`
+	Err          string   `json:"err,omitempty"`
+	Dev          *DevLog  `json:"dev,omitempty"`
+	Fallbacks    [][2]int `json:"fallbacks,omitempty"`
+	Pts          int64    `json:"pts,omitempty"`
+	Intact       bool     `json:"intact"`
+	Fault        bool     `json:"fault,omitempty"`
+	AliasesInput bool     `json:"aliases_input,omitempty"`
+	NilRd        bool     `json:"-"`
+	Fn           string   `json:"-"`
 
 	valid []bool
 	err   error
 	b, b2 []byte
+	snap  string
 }
+
+// snapshot renders everything the call handed back (byte results, validity
+// vector, the error value's text) so that it can be compared again later: what
+// a call returned must not change when other calls are made afterwards.
+func (o *Outcome) snapshot() string {
+	e := ""
+	if o.err != nil {
+		e = o.err.Error()
+	}
+	return fmt.Sprintf("%x|%x|%v|%s", o.b, o.b2, o.valid, e)
+}
+
+// Stable reports whether the returned objects still hold what they held when
+// the call returned.
+func (o *Outcome) Stable() bool { return o.snap == "" || o.snap == o.snapshot() }
 
 func hexOrNil(b []byte) string {
 	if b == nil {
@@ -652,6 +670,9 @@ func execOp(p *Prepared) (out *Outcome) {
 		call(p, rd, out)
 	}()
 	out.Pts = zzsimrt.EndOp()
+	if !zzsimrt.BatonTopLevelOnly() && zzsimrt.ChildOverrun() && out.Panic == "" {
+		out.Budget, out.Panic = true, "step budget exceeded (in a goroutine started by the library)"
+	}
 	out.NilRd, out.Fn = op.NilRd, op.Fn
 	out.Fallbacks = takeFallbacks()
 	if dev != nil {
@@ -659,6 +680,14 @@ func execOp(p *Prepared) (out *Outcome) {
 		out.Dev = &l
 	}
 	out.Intact = p.G.Intact() && basepointIntact() && !out.Fault
+	// a result must be a fresh object: a slice that points into the caller's
+	// (shared, read-only) input hands out a writable view of it
+	for _, b := range [][]byte{out.b, out.b2} {
+		if len(b) > 0 && p.G.Contains(uintptr(unsafe.Pointer(&b[0]))) {
+			out.AliasesInput = true
+		}
+	}
+	out.snap = out.snapshot()
 	out.B, out.B2 = "", ""
 	if out.b != nil || out.Panic == "" {
 		out.B = hexOrNil(out.b)
